@@ -2391,6 +2391,7 @@ static int run_if (hawk_rtx_t* rtx, hawk_nde_if_t* nde)
 	hawk_val_t* test;
 	int n = 0;
 
+next_arm:
 	/* the test expression for the if statement cannot have
 	 * chained expressions. this should not be allowed by the
 	 * parser first of all */
@@ -2406,6 +2407,18 @@ static int run_if (hawk_rtx_t* rtx, hawk_nde_if_t* nde)
 	}
 	else if (nde->else_part)
 	{
+		if (nde->else_part->type == HAWK_NDE_IF)
+		{
+			/* an else-if ladder is a chain of if nodes linked through the
+			 * else part. its length is not bounded by any depth limit.
+			 * go down the ladder here instead of running each 'else if'
+			 * through run_statement() and run_if() again */
+			hawk_rtx_refdownval (rtx, test);
+			nde = (hawk_nde_if_t*)nde->else_part;
+			ON_STATEMENT (rtx, (hawk_nde_t*)nde); /* as run_statement() does */
+			goto next_arm;
+		}
+
 		n = run_statement(rtx, nde->else_part);
 	}
 
